@@ -389,6 +389,7 @@ impl Property for C06 {
             expect: serde_json::json!({ "value": expected, "r0": format!("0x{}", crate::canon::hex(&exps[0])), "last_is_r0": last_is_r0 }),
             shape: h.0,
             est_len: 100,
+            min_quantum: 0,
         }
     }
     fn monitor(&self, _scn: &Scenario) -> Box<dyn Monitor + Send> {
